@@ -1,1 +1,210 @@
-/-! # C02 — property theorems (not built yet) -/
+import PysphVerif.Model.Codegen
+import PysphVerif.Gen.Precomp
+import PysphVerif.Lemmas.CodegenSort
+import PysphVerif.Lemmas.CodegenClosure
+import PysphVerif.Lemmas.CodegenWiring
+/-!
+# C02 — compiled equations compute what the Python equation source says
+
+Property theorems only (helper lemmas: `Lemmas/CodegenSort.lean`,
+`Lemmas/CodegenClosure.lean`, `Lemmas/CodegenWiring.lean`).  They are about
+* the table `Gen/Precomp.lean`, regenerated from `equation.py::precomputed_symbols()`
+  and `docs/source/design/equations.rst` on every run, and
+* the model `Model/Codegen.lean` of `sort_precomputed`, `Group._setup_precomputed`,
+  `MegaGroup._make_data` and the pointer / declaration / scratch-vector set-up of
+  `acceleration_eval_cython_helper.py`.
+What transpiled *user* code computes (compyle, Cython, g++) is outside every model
+and is carried by differential execution in `harness/c02.py` (testing).
+-/
+set_option linter.unusedSectionVars false
+namespace PysphVerif.Props.C02
+open PysphVerif.Codegen PysphVerif.Gen.Precomp
+
+/-! ## 1. the precomputed symbols are their documented formulas -/
+
+/-- every documented formula is, statement for statement and operation for
+operation (so also bit for bit in floating point), the code block of that symbol -/
+theorem precomp_code_eq_doc :
+    ∀ e ∈ docTable, codeTable.lookup e.1 = some e.2 := by decide
+
+/-- the same for the symbols the documentation does not list, against the naming
+convention of the documented `W*`/`DW*` family -/
+theorem precomp_code_eq_conv :
+    ∀ e ∈ convTable, codeTable.lookup e.1 = some e.2 := by decide
+
+/-- no code block is left without a specification -/
+theorem precomp_all_specified :
+    ∀ e ∈ codeTable, (docTable ++ convTable).lookup e.1 = some e.2 := by decide
+
+/-- semantic form: in every number system, for every particle data, kernel
+functions and prior store, the code block of a symbol leaves the values its
+documented formula denotes -/
+theorem precomp_matches_doc {α : Type} [Add α] [Sub α] [Mul α] [Div α] [Neg α] [NatCast α]
+    (env : Env α) (st : Store α) (s : String) (bd : Block)
+    (h : (s, bd) ∈ docTable ++ convTable) :
+    ∃ bc, codeTable.lookup s = some bc ∧ evalBlock env st bc = evalBlock env st bd := by
+  refine ⟨bd, ?_, rfl⟩
+  rcases List.mem_append.mp h with h | h
+  · exact precomp_code_eq_doc (s, bd) h
+  · exact precomp_code_eq_conv (s, bd) h
+
+/-- the symbol sets the sort and the closure work with (`cb.symbols`) are the names
+that occur in the translated blocks -/
+theorem symbols_table_consistent :
+    ∀ e ∈ codeTable, sortDedup (Block.names e.2) = symbolsTable.syms e.1 := by decide
+
+/-- …and the table has one entry per code block, in the same order -/
+theorem symbols_table_keys : symbolsTable.map (·.1) = codeTable.map (·.1) := by decide
+
+example : (docTable.length, convTable.length, codeTable.length) = (14, 7, 21) := by decide
+
+/-! ## 2. `sort_precomputed` -/
+
+section sort
+variable {ν : Type} [DecidableEq ν]
+
+/-- the sorted result contains exactly the given symbols, each once -/
+theorem sort_is_perm (le : ν → ν → Bool) (t : Table ν) (keys out : List ν) (hk : keys.Nodup)
+    (h : sortPrecomputed le t keys = .ok out) : out.Perm keys :=
+  sortPrecomputed_perm le t keys out hk h
+
+/-- every symbol comes after all the symbols its code mentions: no element of
+the result precedes one of its own dependencies, and each dependency does occur
+strictly before -/
+theorem sort_respects_deps (le : ν → ν → Bool) (t : Table ν) (keys out : List ν)
+    (hk : keys.Nodup) (h : sortPrecomputed le t keys = .ok out) :
+    out.Pairwise (fun x y => y ∉ depends t x) ∧
+    ∀ x ∈ out, ∀ d ∈ depends t x, ∃ l1 l2, out = l1 ++ x :: l2 ∧ d ∈ l1 :=
+  ⟨sortPrecomputed_pairwise le t keys out hk h,
+   fun x hx d hd => sortPrecomputed_deps_before le t keys out hk h x d hx hd⟩
+
+/-- on an acyclic dependency relation the `while pre_comp_names` loop ends within
+`len(precomputed)` passes (the model's fuel) and the sort succeeds -/
+theorem sort_terminates_on_dag (le : ν → ν → Bool) (t : Table ν) (keys : List ν)
+    (hk : keys.Nodup) (hc : depsClosed t keys = true) (ha : Acyclic t keys) :
+    ∃ out, sortPrecomputed le t keys = .ok out :=
+  sortPrecomputed_terminates le t keys hk hc ha
+
+end sort
+
+/-- the shipped table is acyclic (decided on the regenerated table) -/
+theorem precomp_table_acyclic : Acyclic symbolsTable (symbolsTable.map (·.1)) :=
+  acyclic_of_acyclicB symbolsTable (by decide)
+
+/-- why termination is a theorem: on a two-symbol cycle no pass assigns a weight
+and the Python loop spins for ever (the model reports exhausted fuel) -/
+theorem sort_diverges_on_cycle :
+    sortPrecomputed strLe [("A", ["B"]), ("B", ["A"])] ["A", "B"] = .diverges := by decide
+
+/-- and a symbol that mentions a precomputed symbol outside the given set raises -/
+theorem sort_keyerror_when_unclosed :
+    sortPrecomputed strLe symbolsTable ["RIJ"] = .keyError := by decide
+
+example : sortPrecomputed strLe symbolsTable ["RIJ", "WIJ", "XIJ", "HIJ", "R2IJ"] =
+    .ok ["HIJ", "XIJ", "R2IJ", "RIJ", "WIJ"] := by decide
+
+/-! ## 3. `Group._setup_precomputed` -/
+
+section closure
+variable {ν : Type} [DecidableEq ν]
+
+/-- the symbols of a group are the least set that contains the precomputed
+symbols among the `loop` arguments and is closed under "is mentioned by the code
+of"; it is duplicate free and consists of table keys -/
+theorem closure_closed_minimal (t : Table ν) (args : List ν) :
+    (∀ s ∈ args, t.has s = true → s ∈ closure t args) ∧
+    ClosedUnder t (· ∈ closure t args) ∧
+    (∀ S : ν → Prop, ClosedUnder t S → (∀ s ∈ args, t.has s = true → S s) →
+      ∀ x ∈ closure t args, S x) ∧
+    (closure t args).Nodup ∧ (∀ x ∈ closure t args, t.has x = true) :=
+  ⟨closure_contains_args t args, closure_closed t args,
+   fun S hS h0 => closure_minimal t args S hS h0, closure_nodup t args, closure_keys t args⟩
+
+/-- so the sort that follows never meets a symbol without a weight entry -/
+theorem setup_never_keyerror (le : ν → ν → Bool) (t : Table ν) (args : List ν) :
+    setupPrecomputed le t args ≠ .keyError := by
+  unfold setupPrecomputed sortPrecomputed
+  rw [closure_depsClosed t args]
+  simp only [Bool.not_true, Bool.false_eq_true, ↓reduceIte]
+  split <;> simp
+
+end closure
+
+/-- with the shipped table, whatever the `loop` signatures of a group are, the
+set-up succeeds: sorted symbols, all of the closure, dependencies first -/
+theorem setup_ok_on_shipped_table (args : List String) :
+    ∃ out, setupPrecomputed strLe symbolsTable args = .ok out ∧
+      out.Perm (closure symbolsTable args) ∧
+      out.Pairwise (fun x y => y ∉ depends symbolsTable x) := by
+  obtain ⟨out, h⟩ := setupPrecomputed_ok strLe symbolsTable args precomp_table_acyclic
+  exact ⟨out, h, sortPrecomputed_perm strLe symbolsTable _ out (closure_nodup _ _) h,
+    sortPrecomputed_pairwise strLe symbolsTable _ out (closure_nodup _ _) h⟩
+
+example : setupPrecomputed strLe symbolsTable ["d_idx", "s_idx", "d_au", "s_m", "DWIJ", "VIJ"] =
+    .ok ["HIJ", "VIJ", "XIJ", "R2IJ", "RIJ", "DWIJ"] := by decide
+
+/-! ## 4. pointer wiring -/
+
+/-- a `d_*` name is never bound to the source and an `s_*` name never to the
+destination, and each is bound to the array of its own name -/
+theorem wiring_sound (t : Table Name) (eqs : List Eqn) :
+    ∀ db ∈ wiring t eqs,
+      (∀ a ∈ db.assigns, a.side = .dst ∧ isDstArr a.lhs = true ∧ a.prop = strip a.lhs) ∧
+      (∀ sb ∈ db.srcs, ∀ a ∈ sb.assigns,
+        a.side = .src ∧ isSrcArr a.lhs = true ∧ a.prop = strip a.lhs) :=
+  wiring_sides t eqs
+
+/-- every destination array a method of an equation names is bound, in the block of
+the equation's destination, before any method runs -/
+theorem wiring_covers_dest (t : Table Name) (eqs : List Eqn) (e : Eqn) (he : e ∈ eqs)
+    (x : Name) (hx : x ∈ e.allArgs) (hd : isDstArr x = true) :
+    ∃ db ∈ wiring t eqs, db.dest = e.dest ∧ e ∈ db.allEqs ∧
+      (⟨x, .dst, strip x⟩ : Assign) ∈ db.assigns :=
+  wiring_dest_cover t eqs e he x hx hd
+
+/-- every source array a method names is bound in the block of each of the
+equation's sources, where its loop runs -/
+theorem wiring_covers_src (t : Table Name) (eqs : List Eqn) (e : Eqn) (he : e ∈ eqs)
+    (s : Name) (hs : s ∈ e.sources) (x : Name) (hx : x ∈ e.allArgs) (hsrc : isSrcArr x = true) :
+    ∃ db ∈ wiring t eqs, db.dest = e.dest ∧ ∃ sb ∈ db.srcs, sb.source = s ∧ e ∈ sb.eqs ∧
+      (⟨x, .src, strip x⟩ : Assign) ∈ sb.assigns :=
+  wiring_src_cover t eqs e he s hs x hx hsrc
+
+/-- the arrays the precomputed formulas of a source block read are bound too:
+source arrays in that block, destination arrays in the enclosing block -/
+theorem wiring_covers_precomputed (t : Table Name) (eqs : List Eqn) :
+    ∀ db ∈ wiring t eqs, ∀ sb ∈ db.srcs, ∀ p ∈ groupPrecomp t sb.eqs, ∀ x ∈ t.syms p,
+      (isSrcArr x = true → (⟨x, .src, strip x⟩ : Assign) ∈ sb.assigns) ∧
+      (isDstArr x = true → (⟨x, .dst, strip x⟩ : Assign) ∈ db.assigns) :=
+  wiring_precomp_cover t eqs
+
+/-- the declared C type of `d_p` / `s_p` is the C type of the property's carray,
+provided all particle arrays that carry `p` agree on it (`hcons`; otherwise the
+generated wrapper declares the attribute twice and does not compile) and a carray
+class has one C type (`hfun`, true of cyarray by construction) -/
+theorem wiring_types (pas : List PArr) (p cls cty : Name)
+    (hex : ∃ pa ∈ pas, (p, cls, cty) ∈ pa.props)
+    (hcons : ∀ pa ∈ pas, ∀ q ∈ pa.props, q.1 = p → q.2.2 = cty)
+    (hfun : ∀ pa ∈ pas, ∀ q ∈ pa.props, ∀ pa' ∈ pas, ∀ q' ∈ pa'.props,
+      q.2.1 = q'.2.1 → q.2.2 = q'.2.2) :
+    lookupLast (knownTypes (allArrayNames pas)) ("d_" ++ p) = some (cty ++ "*") ∧
+    lookupLast (knownTypes (allArrayNames pas)) ("s_" ++ p) = some (cty ++ "*") :=
+  knownTypes_sound pas p cls cty hex hcons hfun
+
+/-- per-thread scratch vectors: the parts of two threads do not overlap and lie
+inside the allocation -/
+theorem scratch_disjoint (size n i j k l : Nat) (hi : i < n) (hj : j < n) (hij : i ≠ j)
+    (hk : k < size) (hl : l < size) :
+    scratchOffset size i + k ≠ scratchOffset size j + l ∧
+    scratchOffset size i + k < scratchAlloc size n :=
+  scratch_parts size n i j k l hi hj hij hk hl
+
+example : (wiring symbolsTable
+    [{ uid := 0, name := "E", dest := "f", sources := ["s"], mInit := none, mInitPair := none,
+       mLoop := some ["d_idx", "s_idx", "d_au", "s_m", "WIJ"], mLoopAll := none,
+       mPostLoop := none }]).map (fun db => (db.dest, db.assigns.map (·.lhs),
+         db.srcs.map (fun sb => (sb.source, sb.assigns.map (·.lhs))))) =
+    [("f", ["d_au", "d_h", "d_x", "d_y", "d_z"], [("s", ["s_h", "s_m", "s_x", "s_y", "s_z"])])] := by
+  decide +kernel
+
+end PysphVerif.Props.C02
